@@ -288,6 +288,10 @@ fn invocation_forms(rep: &mut Report, root: &std::path::Path) {
         ("RAYON_NUM_THREADS unset", vec![], 0),
         ("tr_TR locale, TZ", vec![("LC_ALL", "tr_TR.UTF-8"), ("LANG", "tr_TR.UTF-8"), ("TZ", "Pacific/Kiritimati")], 2),
         ("RUST_LOG and COLUMNS set", vec![("RUST_LOG", "trace"), ("COLUMNS", "20"), ("NO_COLOR", "1"), ("TERM", "dumb")], 2),
+        ("long options with =", vec![("VERIF_ARGV_FORM", "1")], 2),
+        ("numbers with leading zeros", vec![("VERIF_ARGV_FORM", "2")], 2),
+        ("numbers with a plus sign", vec![("VERIF_ARGV_FORM", "3")], 2),
+        ("options in another order", vec![("VERIF_ARGV_FORM", "4")], 2),
         ("-v", vec![("__verbosity", "1")], 2),
         ("-vv", vec![("__verbosity", "2")], 2),
         ("-vvv", vec![("__verbosity", "3")], 2),
